@@ -30,6 +30,14 @@ class Context:
         self.prog = prog
         self.ck = ck
         self.res = Resolver(prog)
+        import os as _os
+
+        if _os.environ.get("VERIF_SA_NO_KWPOS") != "1" and not getattr(prog, "_kwpos_done", False):
+            from .kwargs import positionalise_keywords
+
+            prog.inline_stats["keywords_positioned"] = positionalise_keywords(prog, self.res)
+            prog._kwpos_done = True
+            self.res = Resolver(prog)  # nothing of the first resolver's caches is kept
         self.flow = ExcFlow(prog, self.res)
         self.flow.compute()
         self.terms = Terms(prog, self.res, self.flow, inline_depth=inline_depth)
@@ -144,6 +152,14 @@ class Context:
             self.ck.holds(rule, d, loc)
             return True
         why = "gate not present in the function" if not pass_edges else "a path avoids it"
+        op = self._opaque_gate_on(cfg, path, tid)
+        if op is not None:
+            # the witness path goes through an outcome of a test whose value the analysis does not read (the result of a
+            # predicate taken from a table, of next()/any()/all() over a generator expression ..) and whose other outcome
+            # cannot reach the target: that test may well BE the gate, written in a way that is not followed - not decided
+            self.ck.unknown(rule, f"{f.qualname[len(f.module.name) + 1:]}: `{tnode.text()[:70]}` is reached without passing {gate_name} as the analysis reads it, but through "
+                                  f"`{op.text()[:70]}`, a test whose value is not read (a predicate held in a variable / next / any / all over a generator): not decided", loc)
+            return False
         self.ck.violated(
             rule,
             f"{f.module.name}:{f.qualname[len(f.module.name) + 1:]}:{gate_name}->{norm_stmt(tnode.text())}",
@@ -153,6 +169,85 @@ class Context:
             d,
         )
         return False
+
+    def param_never_passed(self, f: Func, pname: str) -> bool:
+        """``pname`` is a parameter of f with a default, and no call in the package that may reach f passes it (positionally,
+        by keyword, or through * / **): inside f it always has its default.  (Calls from outside the package are not seen:
+        a public function's new optional parameter is treated as unused until somebody in the package uses it.)"""
+        key = (f.qualname, pname)
+        cache = self.__dict__.setdefault("_pnp_cache", {})
+        if key in cache:
+            return cache[key]
+        cache[key] = False
+        if isinstance(f.node, ast.Lambda) or pname not in f.pos_params:
+            kwonly = [a.arg for a in getattr(f.node.args, "kwonlyargs", [])] if not isinstance(f.node, ast.Lambda) else []
+            if pname not in kwonly:
+                return False
+            pi = None
+            has_default = f.node.args.kw_defaults[kwonly.index(pname)] is not None
+        else:
+            pi = f.pos_params.index(pname)
+            has_default = pi >= len(f.pos_params) - len(f.node.args.defaults)
+        if not has_default:
+            return False
+        off = 1 if (f.cls is not None and "staticmethod" not in f.decorators) else 0
+        short = f.name if f.name != "__init__" else (f.cls.qualname.rsplit(".", 1)[-1] if f.cls is not None else f.name)
+        for g in self.prog.package_functions():
+            if isinstance(g.node, ast.Lambda):
+                continue
+            for c in ast.walk(g.node):
+                if not isinstance(c, ast.Call):
+                    continue
+                nm = c.func.attr if isinstance(c.func, ast.Attribute) else c.func.id if isinstance(c.func, ast.Name) else None
+                if nm not in (short, f.name, "super"):
+                    continue
+                if f.qualname not in self.callee_names(g, c) and not (nm == short and f.name == "__init__"):
+                    continue
+                if any(k.arg in (pname, None) for k in c.keywords) or any(isinstance(a, ast.Starred) for a in c.args):
+                    return False
+                if pi is not None and len(c.args) > pi - off:
+                    return False
+        cache[key] = True
+        return True
+
+    def _opaque_gate_on(self, cfg: CFG, path, tid: int):
+        """the first test node on ``path`` that is a gate for ``tid`` (one of its outcomes cannot reach it) and tests a value
+        the term language does not read"""
+        from .terms import contains, strip_sites
+
+        def opaque(t) -> bool:
+            def bad(s_):
+                if not isinstance(s_, tuple) or not s_:
+                    return False
+                if s_[0] == "unknown":
+                    return True
+                if s_[0] == "call" and len(s_) >= 3:
+                    fn = s_[1]
+                    if fn in (("glob", "next"), ("glob", "any"), ("glob", "all"), ("glob", "filter")) and s_[2] and isinstance(s_[2][0], tuple) and s_[2][0][:1] in (("comp",), ("call",)):
+                        return True
+                    # a call of something that is not a named function / method / class: a callable held in a variable
+                    if isinstance(fn, tuple) and fn[:1] in (("cvar",), ("each",), ("iter",), ("lparam",), ("loopvar",)):
+                        return True
+                return False
+
+            return contains(t, bad)
+
+        for hop in path or []:
+            n = cfg.nodes[hop[0]]
+            if n.kind != "test" or not n.exprs or n.exprs[0] is None:
+                continue
+            outs = [(d_, l_) for (d_, l_, _x) in n.succ if l_ in ("T", "F")]
+            if len(outs) != 2:
+                continue
+            if all(d_ == tid or tid in cfg.reachable_from(d_) for d_, _l in outs):
+                continue
+            try:
+                t = strip_sites(self.terms.of(cfg, n, n.exprs[0]))
+            except Exception:  # noqa: BLE001
+                continue
+            if opaque(t):
+                return n
+        return None
 
     def deref(self, cfg: CFG, node: Node, expr: ast.AST, depth: int = 6):
         """Follow a Name through its unique reaching plain assignment to (defining node, defining expression).
